@@ -311,3 +311,22 @@ def _c13_with_fuzzer():
 
 
 CHECKS["C13"] = _c13_with_fuzzer()
+
+
+def _with_enumeration(pid, nshards=4):
+    base = CHECKS[pid]
+    rnd = base["workers"]
+    def workers(tier, seed, work):
+        jobs = rnd(tier, seed, work)
+        for i in range(nshards):
+            d = os.path.join(work, f"enum{i}")
+            jobs.append(dict(argv=[os.path.join(BIN, "hist.exc"), "--enumerate", pid, "--shard", str(i), "--nshards", str(nshards), "--out", os.path.join(d, "stats.json"), "--faildir", d], out=os.path.join(d, "stats.json"), faildir=d))
+        return jobs
+    base["workers"] = workers
+    base["rule"] += (" Exhaustive part: every (catalogue entry incl. fixtures, " + ("C entry point" if pid == "C17" else "scalar type, C++ evaluator overload") + ") pair is executed once at two argument sets through the same interpreter "
+                     "(classes enumerated_pairs).")
+    return base
+
+
+CHECKS["C15"] = _with_enumeration("C15")
+CHECKS["C17"] = _with_enumeration("C17")
